@@ -620,6 +620,11 @@ func execPhase(t Target, w *World, top string, phase int) *Result {
 					res.Exit = ep.Code & 0xff // what the parent process sees: the low 8 bits
 					return
 				}
+				if u, ok := r.(simrt.Unbounded); ok {
+					res.Exit = -2
+					res.Panic = "hang: " + u.What + "\n" + string(debug.Stack())
+					return
+				}
 				res.Exit = -1
 				res.Panic = fmt.Sprintf("%v\n%s", r, debug.Stack())
 			}
